@@ -231,6 +231,19 @@ impl Builder {
             !old(self).inert && pv(&old(self).patterns).len() < 128 && pattern@.len() > 0
                 ==> !final(self).inert && pv(&final(self).patterns) == pv(&old(self).patterns).push(pattern@),
 //@@ end
+
+// the two read-only accessors: what the collection says (0 for a builder that gave up)
+//@@ fn src/packed/api.rs | pub fn len(&self) -> usize | within=impl Builder | res=r
+//@@ sigsub 1 /pub fn/ => fn
+//@@ header
+        ensures r == pv(&self.patterns).len()
+//@@ end
+
+//@@ fn src/packed/api.rs | pub fn minimum_len(&self) -> usize | within=impl Builder | res=r
+//@@ sigsub 1 /pub fn/ => fn
+//@@ header
+        ensures r == self.patterns.minimum_len
+//@@ end
 }
 
 } // verus!
